@@ -94,7 +94,7 @@ def order_families(tier: str) -> Dict[str, Dict[str, Any]]:
     gaps = [0, C1, C2, FAR] if not wide else [-2, 0, C1 - 1, C1, C2 - 1, C2, FAR]
     return {
         "ord3": {"lens": (3, 4, 3), "gaps": gaps,
-                 "hits": [("a", "b", "a"), ("ab", "c", "b"), ("b", "a", "c")], "rulesets": ORD_RULESETS,
+                 "hits": [("a", "b", "a"), ("ab", "c", "b"), ("b", "a", "c")][:3 if wide else 2], "rulesets": ORD_RULESETS,
                  "leads": [0, 3], "tails": [0, 6], "cuts": -2 if not wide else -1},
         "ordchain2": {"lens": (3, 4), "gaps": [0, C1 - 1, C2 - 1, FAR] if not wide else [0, C1 - 1, C1, C2 - 1, C2, FAR],
                       "hits": CHAIN_HITS2, "rulesets": ORD_CHAINS, "leads": [0, 3], "tails": [0, 6],
